@@ -672,3 +672,132 @@ class C13(DirectSpec):
         fl += [(f"twin_engine.{e}", 1, "index-stable engine on a level of a run twin") for e in ("de", "shade", "cma", "cma_warm", "local", "lhs", "sobol")]
         fl += [("run_twins", 20, "whole-run twins")]
         return fl
+
+
+@register
+class C14(DirectSpec):
+    prop = "C14"
+    module = "c14"
+    rule = (
+        "seeded descriptors over every engine of the quantifier, each run twice in-process with freshly built configuration objects and differently "
+        "scrambled global RNG states, and in fresh interpreters with PYTHONHASHSEED in {0,1,12345,random} (global RNGs scrambled from os.urandom), plus "
+        "minimize(seed=...) twice; public snapshots + call-log digests compared; distinct non-trivial = distinct engine mixes that produced >=2 demes and draw from >=2 random sources"
+    )
+    sizes = {"quick": 64, "thorough": 640}
+    budgets = {"quick": 80.0, "thorough": 1500.0}
+    case_timeout = 200.0
+
+    def floors(self, tier):
+        fl = [(f"engine.{e}", 1, "engine present") for e in gen.ROOT_ENGINES + gen.CMA_ENGINES + gen.LEAF_ONLY]
+        fl += [("descriptors_with_3_levels", 1, "descriptor with 3 levels"), ("cross_process_twins", 10, "fresh-interpreter twins"), ("descriptors_with_2_demes", 10, "descriptors that produced >=2 demes")]
+        return fl
+
+
+@register
+class C19(DirectSpec):
+    prop = "C19"
+    module = "c19"
+    rule = (
+        "generated runs of K metaepochs stepped through run_step(); at every boundary k=0..K: raw digest / RNG fingerprint / call-log length around pickle_dump, "
+        "public snapshot + raw digest + GSC verdict of the loaded tree vs. the live one; loaded trees continued to the end (from the dump-time RNG state) under the C03/C04/C07/C08 "
+        "monitors and compared with the live tree's own future; distinct non-trivial = distinct (engine mix, k, hibernation, objective form) snapshots of trees with >=2 demes"
+    )
+    sizes = {"quick": 48, "thorough": 500}
+    budgets = {"quick": 80.0, "thorough": 1500.0}
+    case_timeout = 240.0
+
+    def floors(self, tier):
+        return [
+            ("snapshot_with_active_cma", 1, "snapshot with an active CMA-ES deme"),
+            ("snapshot_with_hibernating_deme", 1, "snapshot with a hibernating deme"),
+            ("snapshot_with_fresh_deme", 1, "snapshot with a freshly sprouted deme"),
+            ("snapshot_at_0", 1, "snapshot at k=0"),
+            ("snapshot_at_K", 1, "snapshot at k=K"),
+            ("continued_run_sprouted_again", 1, "continued run that sprouted again after loading"),
+            ("continued_runs", 10, "continued runs"),
+        ]
+
+
+@register
+class C20(RunSpec):
+    prop = "C20"
+    rule = (
+        "generated runs; at every boundary summary()/tree() are parsed and compared with the tree (integers exact, floats at printed precision), every accessor is called twice in "
+        "random order with call-log length, raw digest and RNG fingerprint compared around it; seeded runs are compared with an undisturbed twin at the end; "
+        "distinct non-trivial = distinct (height, engine mix, boundary index) reports with >=3 deme lines"
+    )
+    sizes = {"quick": 120, "thorough": 2000}
+
+    def profile(self, rng, idx, tier):
+        p = {"dim": (2, 3), "max_pop": 12}
+        p["root"] = _cycle(ROOT_ENGINES, idx)
+        p["leaf"] = _cycle(ALL_LEAVES, idx, 1)
+        p["levels"] = [2, 3, 2, 1]
+        p["fams"] = ["plateau", "constant", "sphere", "rastrigin", "plateau", "funnel", "linear"]
+        p["gscs"] = ["melimit", "evals"]
+        p["seeded_p"] = 0.85
+        p["entry"] = "tree"
+        p["hibernation_p"] = 0.3
+        if idx % 7 == 3:
+            p["fam"] = "constant"
+        return p
+
+    def make_case(self, seed, idx, tier):
+        d = super().make_case(seed, idx, tier)
+        if idx % 7 == 3:
+            d["obj"]["v"] = 0.0
+        if d["gsc"]["k"] == "melimit":
+            d["gsc"]["n"] = min(d["gsc"]["n"], 6)
+        else:
+            d["gsc"]["n"] = min(d["gsc"]["n"], 700)
+        return d
+
+    def run_case(self, desc):
+        from . import harness
+        from .monitors.c20 import C20Reports
+        from .observe import diff_snapshots, public_snapshot, snapshot_digest
+
+        ctx = harness.run_case(desc, [C20Reports()])
+        res = run_result(ctx, desc)
+        if desc.get("options", {}).get("random_seed") is not None and not ctx.aborted and ctx.tree is not None:
+            twin = harness.run_case(desc, [])
+            res["cov"]["C20.undisturbed_twins"] += 1
+            if not twin.aborted:
+                a, b = public_snapshot(ctx.tree, with_text=False), public_snapshot(twin.tree, with_text=False)
+                if snapshot_digest(a) != snapshot_digest(b) or [e[1] for e in ctx.log] != [e[1] for e in twin.log]:
+                    ctx.violation("C20", "looking at the tree during the run changed its future (differs from the undisturbed seeded twin)", {"differences": diff_snapshots(b, a), "engines": gen.engine_mix(desc)})
+                    res["violations"] = ctx.violations
+        return res
+
+    def floors(self, tier):
+        return [
+            ("C20.two_demes_share_global_best", 1, "tree with >=2 demes sharing the global best"),
+            ("C20.displayed_and_not_yet_displayed_child", 1, "tree with a displayed and a not-yet-displayed child"),
+            ("C20.best_fitness_exactly_zero", 1, "best fitness exactly 0.0"),
+            ("C20.undisturbed_twins", 10, "undisturbed twins"),
+            ("C20.accessor_calls", 1000, "accessor calls"),
+        ]
+
+
+@register
+class C10(DirectSpec):
+    prop = "C10"
+    module = "c10"
+    rule = (
+        "generators and filters called directly on synthetic trees (real DemeTree objects of 2-3 levels shaped by the harness: extra children with chosen seeds, activity flags, just-finished demes) "
+        "and synthetic candidate sets (sizes 0-12 per parent, distinct / tied / all-equal fitness, exact and near duplicates of existing seeds, both directions, limits 1-5, chains in random order), "
+        "plus the same oracles on every generator / filter application of real runs through taps; distinct non-trivial = distinct (filter, direction, tie pattern, occupancy) in which the filter removed something but not everything"
+    )
+    sizes = {"quick": 400, "thorough": 12000}
+    budgets = {"quick": 75.0, "thorough": 1200.0}
+
+    def floors(self, tier):
+        fl = []
+        for dr in ("min", "max"):
+            fl.append((f"filter.DemeLimit.had_to_choose.{dr}", 5, "DemeLimit had to choose"))
+            fl.append((f"filter.LevelLimit.had_to_choose.{dr}.distinct", 5, "LevelLimit had to choose with distinct fitness"))
+            for f in ("DemeLimit", "LevelLimit", "SkipSameSprout", "FarEnough", "NBC_FarEnough"):
+                fl.append((f"filter.{f}.{dr}", 1, "filter applied"))
+        fl += [(f"generator.{g}", 1, "generator called") for g in ("BestPerDeme", "NBC_Generator", "NBCGeneratorWithLocalMethod")]
+        fl += [("generator.just_finished_parent", 1, "just-finished deme offered by the local-method generator"), ("filter.SkipSameSprout.rejected", 1, "duplicate rejected"), ("chain_order", 3, "filter chains")]
+        return fl
